@@ -214,7 +214,7 @@ def cases(draw, tier):
         "nan_at": nan_at,
         "upper": draw(st.booleans()),
         "route": route,
-        "jitter": {"src": jsrc, "value": j, "decoy": draw(st.booleans())},
+        "jitter": {"src": jsrc, "value": j, "decoy": draw(st.booleans()), "positional": draw(st.booleans())},
         "tries": {"src": tsrc, "value": T, "decoy": draw(st.booleans())},
         "plan": plan,
     }
@@ -346,6 +346,12 @@ def check(case):
             if not case["jitter"]["decoy"]:
                 fv, dv = (j, None) if dt == "f32" else (None, j)
             stack.enter_context(settings.cholesky_jitter(float_value=fv, double_value=dv))
+        elif jsrc == "default" and case["jitter"]["decoy"]:
+            # a context that overrides ONLY the other precision's jitter: this dtype keeps its documented default
+            if dt == "f64":
+                stack.enter_context(settings.cholesky_jitter(j * 1000.0) if case["jitter"].get("positional") else settings.cholesky_jitter(float_value=j * 1000.0))
+            else:
+                stack.enter_context(settings.cholesky_jitter(double_value=j * 1000.0))
         if tsrc == "arg":
             kwargs["max_tries"] = T
             if case["tries"]["decoy"]:
